@@ -1024,6 +1024,13 @@ impl<'de> serde::de::Visitor<'de> for ParsedValueSeed<'_> {
     where
         E: serde::de::Error,
     {
+        // YAML (`.inf`, `.nan`) and JSON5 (`Infinity`, `NaN`) can spell numbers that have no literal form in the generated code
+        if !v.is_finite() {
+            return Err(serde::de::Error::custom(format!(
+                "{} is not a valid translation value, numbers must be finite",
+                v
+            )));
+        }
         Ok(ParsedValue::Literal(Literal::Float(v)))
     }
 
